@@ -193,19 +193,24 @@ pub fn judge(
         let (a, b) = (r.observed.per_thread(), run.observed.per_thread());
         match w.projection {
             Projection::AllThreads => {
-                if a != b {
-                    let t = a
-                        .keys()
-                        .chain(b.keys())
-                        .find(|t| a.get(t) != b.get(t))
-                        .copied()
-                        .unwrap_or(0);
-                    let empty = vec![];
+                // main's sequence must be identical. A run ends when main finishes, wherever the
+                // other tasks happen to be, so for them one sequence must be a prefix of the other.
+                let empty = vec![];
+                let bad = a.keys().chain(b.keys()).find(|t| {
+                    let (x, y) = (a.get(t).unwrap_or(&empty), b.get(t).unwrap_or(&empty));
+                    if **t == 0 {
+                        x != y
+                    } else {
+                        let n = x.len().min(y.len());
+                        x[..n] != y[..n]
+                    }
+                });
+                if let Some(t) = bad {
                     out.push(v(
                         "ref:output-differs",
                         format!(
                             "host calls of t{t} differ from the reference run: {}",
-                            first_diff(a.get(&t).unwrap_or(&empty), b.get(&t).unwrap_or(&empty))
+                            first_diff(a.get(t).unwrap_or(&empty), b.get(t).unwrap_or(&empty))
                         ),
                     ));
                 }
